@@ -51,6 +51,32 @@ class Clock:
     now = 1000
 
 
+class Audit:
+    """Host file accesses observed by a sys audit hook while a handler call runs (C16 diagnostic turned clause: with an
+    in-memory filestore no handler call may open a host path of the pretended sandbox)."""
+    active = False
+    needle = ""
+    seen: list = []
+    installed = False
+
+    @classmethod
+    def install(cls):
+        if cls.installed:
+            return
+        import sys
+
+        def hook(event, args):
+            if cls.active and event in ("open", "os.listdir", "os.mkdir", "os.remove", "os.rename", "os.rmdir", "os.truncate", "os.scandir"):
+                try:
+                    path = str(args[0])
+                except Exception:  # noqa: BLE001
+                    return
+                if cls.needle and cls.needle in path:
+                    cls.seen.append(event + ":" + path.replace(cls.needle, "<sandbox>"))
+        sys.addaudithook(hook)
+        cls.installed = True
+
+
 def _time_ms() -> int:
     return Clock.now
 
@@ -356,10 +382,11 @@ class CTP(CheckTimerProvider):
 class World:
     """One source entity and one destination entity with private sandboxes <root>/s and <root>/d."""
 
-    def __init__(self, cfg: dict, seqprov: SeqProv | None = None, root: Path | None = None):
+    def __init__(self, cfg: dict, seqprov: SeqProv | None = None, root: Path | None = None, keep_clock: bool = False):
         self.cfg = cfg
         self.pair = False   # pair runs: source-side events carry the destination sandbox snapshot too (C01)
-        Clock.now = 1000
+        if not keep_clock:
+            Clock.now = 1000
         self.own_root = root is None
         self.root = Path(tempfile.mkdtemp(prefix="cfdpv_", dir=os.environ.get("CFDP_VERIF_TMP", None))) if root is None else root
         self.sdir = self.root / "s"
@@ -378,6 +405,9 @@ class World:
             self.ddir.mkdir(parents=True, exist_ok=True)
             self.sfs = RecFs()
             self.dfs = RecFs()
+        if self.mem:
+            Audit.install()
+            Audit.needle = self.root.name
         self.ind = {"S": [], "D": []}
         self.flt = {"S": [], "D": []}
         self.ev: list[dict] = []
@@ -643,6 +673,9 @@ class World:
         w0 = fs.writes
         exc, excr, excw, ret = "none", "none", "none", "none"
         argabs = dict(t="none")
+        if self.mem:
+            Audit.seen = []
+            Audit.active = True
         try:
             if kind == "put":
                 argabs = self.absreq(arg)
@@ -677,6 +710,7 @@ class World:
             excw = (fr[-1].name if fr else tb[-1].name)
         finally:
             fs.reject_write = False
+            Audit.active = False
         pdus = []
         while take is None or len(pdus) < take:
             ph = h.get_next_packet()
@@ -686,7 +720,8 @@ class World:
         ev = dict(side=side, call=kind, arg=argabs, now=Clock.now, take=-1 if take is None else take, wrej=wrej,
                   nwrites=fs.writes - w0, pre=pre, post=self.pub(side), ret=ret, exc=exc, excr=excr, excw=excw,
                   out=[self.absp(p) for p in pdus], ind=self.ind[side][n_ind:], flt=self.flt[side][n_flt:],
-                  fs=self.snapshot("D") if (side == "D" or self.pair) else [], srcIntact=self.snapshot("S") == self.src_snapshot0)
+                  fs=self.snapshot("D") if (side == "D" or self.pair) else [], srcIntact=self.snapshot("S") == self.src_snapshot0,
+                  hostopen=list(Audit.seen) if self.mem else [])
         self.ev.append(ev)
         ev2 = dict(ev)
         ev2["_pdus"] = pdus
